@@ -5,7 +5,7 @@ M="$1"; WT="$2"
 cd "$WT" || exit 2
 git -C "$WT" checkout -- . ; git -C "$WT" apply "$M/patch.diff" || { echo "patch does not apply to worktree"; exit 2; }
 echo "== pinned suite with change"; (cd "$WT/code/go/0chain.net" && go test -vet=off -count=1 -timeout 25m ./... 2>&1 | grep -E "^(ok|FAIL|---)" | grep -v "build failed\|setup failed" | sort | uniq -c | sort -rn | head -20)
-echo "== demo with change (expect failure)"; (sh "$M/run_demo.sh" > "$M/confirm_with.log" 2>&1; echo "exit=$?")
+echo "== demo with change (expect failure)"; (bash "$M/run_demo.sh" > "$M/confirm_with.log" 2>&1; echo "exit=$?")
 git -C "$WT" checkout -- .
-echo "== demo without change (expect pass)"; (sh "$M/run_demo.sh" > "$M/confirm_without.log" 2>&1; echo "exit=$?")
+echo "== demo without change (expect pass)"; (bash "$M/run_demo.sh" > "$M/confirm_without.log" 2>&1; echo "exit=$?")
 git -C "$WT" apply "$M/patch.diff"
